@@ -5,6 +5,7 @@ import (
 
 	"github.com/bronlabs/errs-go/errs"
 
+	"github.com/bronlabs/bron-crypto/pkg/base/curves"
 	"github.com/bronlabs/bron-crypto/pkg/base/serde"
 )
 
@@ -33,6 +34,9 @@ func (fe *BaseFieldElement) UnmarshalCBOR(data []byte) error {
 	if err != nil {
 		return errs.Wrap(err).WithMessage("failed to unmarshal base field element")
 	}
+	if dto == nil {
+		return curves.ErrSerialisation.WithMessage("BaseFieldElement DTO is nil")
+	}
 
 	bfe, err := NewBaseField().FromBytes(dto.BaseFieldBytes)
 	if err != nil {
@@ -58,6 +62,9 @@ func (fe *Scalar) UnmarshalCBOR(data []byte) error {
 	if err != nil {
 		return errs.Wrap(err).WithMessage("failed to unmarshal scalar")
 	}
+	if dto == nil {
+		return curves.ErrSerialisation.WithMessage("Scalar DTO is nil")
+	}
 
 	s, err := NewScalarField().FromBytes(dto.ScalarBytes)
 	if err != nil {
@@ -82,6 +89,9 @@ func (p *Point) UnmarshalCBOR(data []byte) error {
 	dto, err := serde.UnmarshalCBOR[*pointDTO](data)
 	if err != nil {
 		return errs.Wrap(err).WithMessage("failed to unmarshal point")
+	}
+	if dto == nil {
+		return curves.ErrSerialisation.WithMessage("Point DTO is nil")
 	}
 
 	pp, err := NewCurve().FromCompressed(dto.AffineCompressedBytes)
